@@ -2,7 +2,13 @@
   C08 — Per-block address-field information admits every approvable address.
 -/
 import TealerModel.Props.Common
+import TealerModel.Props.Tie
 namespace Tealer.C08
+
+/-- tie to today's source (constants and tables imported from /repo on this run) -/
+theorem C08_tie_source : Generated.addrMarkers = [ANY_ADDRESS, NO_ADDRESS, SOME_ADDRESS, CREATOR_ADDRESS] ∧
+    Generated.addrBaseKeys = addrAnalysis.baseKeys ∧ Generated.ZERO_ADDRESS = ZERO_ADDRESS :=
+  ⟨Tie.consts_tie.2.2.2.2.2.2.2.2.2.2.1, Tie.consts_tie.2.2.2.2.2.2.2.2.2.2.2.1, Tie.consts_tie.2.2.2.1⟩
 
 theorem C08_union_sound (a b : AddrSet) (v : String) :
     Addr.gamma a v ∨ Addr.gamma b v → Addr.gamma (addrUnion a b) v := Addr.union_sound a b v
